@@ -3,7 +3,7 @@ CONSTANTS
   Senders = {1, 2}
   MaxMsgs = 2
   Sharing = FALSE
-  Kinds = {"mem", "udp", "frag/mem64", "mbapp/mem128", "strmux/mem", "u16mux/mem", "u32mux/mem", "u64mux/mem", "varmux/mem", "multi/mem", "map/mem", "p2pke/mem", "p2pke/udp", "wl/p2pke/mem", "frag/p2pke/mem", "mbapp/p2pke/mem", "strmux/mbapp/mem128", "quic/mem", "ssh"}
+  Kinds = {"mem", "udp", "frag/mem64", "frag/dup/mem64", "mbapp/dup/mem128", "p2pke/dup/mem", "mbapp/mem128", "strmux/mem", "u16mux/mem", "u32mux/mem", "u64mux/mem", "varmux/mem", "multi/mem", "map/mem", "p2pke/mem", "p2pke/udp", "wl/p2pke/mem", "frag/p2pke/mem", "mbapp/p2pke/mem", "strmux/mbapp/mem128", "quic/mem", "ssh"}
   SenderCounts = {3}
   ReceiverCounts = {2}
   SizeClasses = {0, 1, 7, 64, 200, 250, 500, 750, 999, 1000}
